@@ -120,7 +120,7 @@ def restore_player(ctx, league, name, path, ids_seen=None, check=False):
                 ctx.violation("C20/deepcopy:identity", {"name": name})
             for f in ("mu", "sigma", "name", "id"):
                 b, a = getattr(new, f, "<missing>"), getattr(old, f, None)
-                if type(a) is not type(b) or enc(a) != enc(b):
+                if not same_value(a, b):
                     ctx.violation("C20/deepcopy:%s" % f, {"name": name, "orig": repr(a), "copy": repr(b)})
     else:
         mu, sigma = league.stored(name)
@@ -136,6 +136,16 @@ def restore_player(ctx, league, name, path, ids_seen=None, check=False):
     return new
 
 
+def same_value(a, b):
+    """'Holding exactly the given value': numerically equal numbers (an int 25 and a float
+    25.0 are the same value - a constructor may coerce); anything else must be equal and of
+    the same type."""
+    num = (int, float)
+    if isinstance(a, num) and isinstance(b, num) and not isinstance(a, bool) and not isinstance(b, bool):
+        return a == b
+    return type(a) is type(b) and a == b
+
+
 def check_built(ctx, r, mu, sigma, name, path, created):
     """Construction invariants of a rating built through rating()/create_rating().  The id is
     deliberately NOT read here: an implementation may create it lazily, and reading it now
@@ -143,7 +153,7 @@ def check_built(ctx, r, mu, sigma, name, path, created):
     and their ids are verified by check_ids() later (after copies were taken)."""
     for f, want in (("mu", mu), ("sigma", sigma)):
         got = getattr(r, f, "<missing>")
-        if type(got) is not type(want) or enc(got) != enc(want) or not (got == want):
+        if not same_value(got, want):
             ctx.violation("C20/restore_value:%s:%s" % (path, f), {"given": enc(want), "held": enc(got) if isinstance(got, (int, float)) else repr(got)})
     if name and getattr(r, "name", None) != name:
         ctx.violation("C20/restore_value:%s:name" % path, {"given": name, "held": repr(getattr(r, "name", None))})
@@ -261,7 +271,7 @@ def gen_malformed_op(rng, ctx, names, league, calls=faults.CALLS):
 
 def calls_params(rng, prop):
     return {
-        "length": rng.choice([4, 8, 12, 20, 32]),
+        "length": rng.choice([4, 8, 12, 20, 32, 32, 300] if rng.random() < 0.15 else [4, 8, 12, 20, 32]),
         "players": rng.choice([6, 8, 12, 16]),
         "population": rng.choice(["default", "mixed", "spread"]),
         "opt_rate": rng.choice([0.15, 0.35, 0.6]) if prop == "C14" else rng.choice([0.5, 0.8]),
@@ -270,8 +280,38 @@ def calls_params(rng, prop):
         "faults_on": sorted(rng.sample(["malformed", "crash", "restart"], rng.randint(0, 3))),
         "maker": rng.choice(["random", "closest", "farthest"]),
         "rule": rng.choice(["uniform", "skill", "upset", "tie"]),
-        "pristine_refs": rng.random() < 0.06,
+        "pristine_refs": rng.random() < 0.25,
+        "p_other_model": rng.choice([0.0, 0.05, 0.15]),
     }
+
+
+def deep_probe(model):
+    """Cheap digest of what callers share besides the model instance: the globals of the
+    model's own module and of the shared helper modules, and the dictionaries of the model
+    class and its rating classes.  Identity of every value (C speed) plus the sizes of the
+    containers found there; a rebound global, a new class attribute or a growing cache all
+    change it."""
+    import sys as _sys
+
+    cls = type(model)
+    names = {cls.__module__, "openskill.models.weng_lin.common", "openskill.models.common"}
+    dicts = [vars(_sys.modules[n]) for n in sorted(names) if n in _sys.modules]
+    own = vars(_sys.modules[cls.__module__])
+    for v in list(own.values()):
+        if isinstance(v, type) and getattr(v, "__module__", None) == cls.__module__:
+            dicts.append(vars(v))
+    md = model.__dict__
+    cont = (dict, list, set)
+
+    def probe():
+        out = [tuple(map(id, md.values()))]
+        for d in dicts:
+            vals = tuple(d.values())
+            out.append(tuple(map(id, vals)))
+            out.append(sum(len(v) for v in vals if type(v) in cont))
+        return out
+
+    return probe
 
 
 class CallsDriver:
@@ -325,6 +365,8 @@ class CallsDriver:
             else:
                 scope = frng.sample(names, frng.randint(1, len(names)))
                 return {"op": "RESTART", "scope": scope, "paths": [frng.choice(["rating", "create_rating", "deepcopy"]) for _ in scope]}
+        if rng.random() < p.get("p_other_model", 0.0):
+            return self.gen_other_model(rng)
         r = rng.random()
         if p["threaded"] and r < 0.5:
             op = self.gen_concurrent(rng, names)
@@ -337,6 +379,24 @@ class CallsDriver:
         return {"op": "NEW", "name": "p%d" % len(names)}
 
     n_gen = 0
+
+    def gen_other_model(self, rng):
+        """A SECOND model object (same or another class, other parameters) is constructed and
+        used by somebody else in the process, between two calls on the league's model."""
+        from league import gen_config
+
+        other = gen_config(rng)
+        if rng.random() < 0.6:
+            other["model"] = self.ctx.cfg["model"]
+            if other["model"].startswith("Thurstone"):
+                b = dec(other["kwargs"]["beta"])
+                other["kwargs"]["kappa"] = enc(min(dec(other["kwargs"]["kappa"]), 1e-2 * math.sqrt(2.0) * b * 0.999))
+        n = rng.choice([2, 2, 3])
+        call = {"op": "RATE", "teams": [["o%d" % i] for i in range(n)]}
+        if rng.random() < 0.5:
+            call.update(encode_outcome(rng, weak_order(rng, n, "tie")))
+        call.update(gen_options(rng, other, rate=0.4))
+        return {"op": "OTHER_MODEL", "cfg": other, "call": call, "predict": rng.choice(["win", "draw", "rank", None])}
 
     def gen_concurrent(self, rng, names):
         ctx = self.ctx
@@ -413,8 +473,22 @@ class CallsDriver:
             self.prev_rebuilt = True
         elif kind == "CONCURRENT":
             self.exec_concurrent(op)
+        elif kind == "OTHER_MODEL":
+            self.exec_other_model(op)
         else:
             raise HarnessError("unknown op %r" % kind)
+
+    def exec_other_model(self, op):
+        ctx = self.ctx
+        pre = model_state(self.league.model)
+        other = League(op["cfg"])
+        rec = exec_call(Ctx(ctx.prop, op["cfg"], {}), other, op["call"])
+        if op.get("predict"):
+            st, val = call_outcome(lambda: do_predict(other.model, op["predict"], other.teams_of(op["call"]["teams"])))
+        ctx.fault("other_model_in_process")
+        self.check_model(pre, "OTHER_MODEL")
+        ctx.log("OTHER_MODEL", op["cfg"]["model"], rec["out"])
+        self.prev = "opt"
 
     prev_rebuilt = False
 
@@ -595,11 +669,14 @@ class CallsDriver:
             srng = ctx.rng("schedule")
             strat, sp = S.gen_strategy(srng, n, est)
             probe = None
-            if srng.random() < 0.7:
+            pk = srng.random()
+            if pk < 0.5:
                 m = league.model
                 probe = lambda: tuple((k, v if type(v) in (int, float, bool, str, type(None)) else id(v)) for k, v in m.__dict__.items())
+            elif pk < 0.75:
+                probe = deep_probe(league.model)
             chooser = S.GenChooser(srng, n, strat, sp, probe)
-            ctx.count("strategy:" + strat + ("+overlay" if probe else ""))
+            ctx.count("strategy:" + strat + ("+overlay" if pk < 0.5 else "+deep_overlay" if pk < 0.75 else ""))
         sc = S.Sched(n, chooser, gran=op["gran"], crash=crash)
         sc.run([body_for(ti) for ti in range(n)])
         op["schedule"] = sc.decisions
@@ -1176,7 +1253,7 @@ class StoreDriver:
                     ctx.violation("C20/deepcopy:identity", {"teams": names})
                 for f in ("mu", "sigma", "name", "id"):
                     b, a = getattr(q, f, "<missing>"), getattr(p, f, None)
-                    if type(a) is not type(b) or enc(a) != enc(b):
+                    if not same_value(a, b):
                         ctx.violation("C20/deepcopy:%s" % f, {"orig": repr(a), "copy": repr(b)})
         ctx.probe("deepcopy_nested")
         # continue league B on the copies (snapshot path for a whole match)
@@ -1219,7 +1296,7 @@ def _op_DEEPCOPY_HISTORY(self, op):
                 seen.add(id(q))
                 for f in ("mu", "sigma", "name", "id"):
                     y, x = getattr(q, f, "<missing>"), getattr(p, f, None)
-                    if type(x) is not type(y) or enc(x) != enc(y):
+                    if not same_value(x, y):
                         ctx.violation("C20/deepcopy:%s" % f, {"orig": repr(x), "copy": repr(y), "where": key, "same_id_objects_in_structure": len(a["history"]) + 1})
         if a["history"]:
             ctx.probe("deepcopy_history_same_id_different_values")
